@@ -118,7 +118,7 @@ impl DeweyVersion {
             /*
              * PKGREVISION denoted by nb<x>.  If <x> is missing then 0.
              */
-            if slice.starts_with("nb") {
+            if starts_with_ignore_ascii_case(slice, "nb") {
                 idx += 2;
                 let slice = &s[idx..s.len()];
                 let nbstr: String =
@@ -132,19 +132,23 @@ impl DeweyVersion {
              * Supported modifiers and their weightings so that they are ordered
              * correctly.
              */
-            if slice.starts_with("alpha") {
+            if starts_with_ignore_ascii_case(slice, "alpha") {
                 version.push(-3);
                 idx += 5;
                 continue;
-            } else if slice.starts_with("beta") {
+            } else if starts_with_ignore_ascii_case(slice, "beta") {
                 version.push(-2);
                 idx += 4;
                 continue;
-            } else if slice.starts_with("rc") {
+            } else if starts_with_ignore_ascii_case(slice, "pre") {
+                version.push(-1);
+                idx += 3;
+                continue;
+            } else if starts_with_ignore_ascii_case(slice, "rc") {
                 version.push(-1);
                 idx += 2;
                 continue;
-            } else if slice.starts_with("pl") {
+            } else if starts_with_ignore_ascii_case(slice, "pl") {
                 version.push(0);
                 idx += 2;
                 continue;
@@ -152,14 +156,15 @@ impl DeweyVersion {
 
             /*
              * Finally, encode any ASCII alphabetic characters as a 0 followed by
-             * their ASCII code, otherwise completely ignore any non-ASCII
-             * characters, making sure to correctly handle multibyte characters.
+             * their lower-case ASCII code, otherwise completely ignore any
+             * non-ASCII characters, making sure to correctly handle multibyte
+             * characters.
              *
              * Reuse "c" from above.
              */
             if c.is_ascii_alphabetic() {
                 version.push(0);
-                version.push(c as i64);
+                version.push(c.to_ascii_lowercase() as i64);
                 idx += 1;
             } else {
                 idx += c.len_utf8();
@@ -171,6 +176,15 @@ impl DeweyVersion {
             pkgrevision,
         }
     }
+}
+
+/**
+ * Modifiers are matched regardless of case, as pkg_install uses strncasecmp().
+ * The prefix is always ASCII so it is safe to compare raw bytes.
+ */
+fn starts_with_ignore_ascii_case(s: &str, prefix: &str) -> bool {
+    s.len() >= prefix.len()
+        && s.as_bytes()[..prefix.len()].eq_ignore_ascii_case(prefix.as_bytes())
 }
 
 /**
